@@ -655,6 +655,29 @@ impl Property for C05 {
     fn selfcheck() -> Result<(), String> {
         vcheck::dynschema_selfcheck::run()
     }
+    /// libFuzzer input: layout bits, perturbation (mode, position, kind), notation script, then the
+    /// type and a value of it
+    fn fuzz_decode(data: &[u8]) -> Option<(&'static str, Case, bool)> {
+        let mut b = engine::Bytes::new(data);
+        let layout = Layout { doc_end: false, ..Layout::from_bits(b.u16() as u32) };
+        let mode = b.below(4);
+        let at = b.u16();
+        let kind = b.u16();
+        let n = 8 + b.below(16);
+        let script: Vec<u16> = (0..n).map(|_| b.u16()).collect();
+        let ty = ds::ty_from_bytes(&mut b, 4);
+        let val = ds::val_from_bytes_with(&mut b, &ty, &IDENTS, 0, 100);
+        let doc = to_node(&ty, &val, &script, &mut 0);
+        let c = if mode == 0 {
+            Case { ty, doc, layout, perturbation: "none".into() }
+        } else {
+            let n = doc.count();
+            let (d2, label) = perturb(&doc, (at as usize * n) >> 16, kind);
+            Case { ty, doc: d2, layout, perturbation: label.to_string() }
+        };
+        let nt = nontrivial(&c);
+        Some(("fuzz-typed-documents", c, nt))
+    }
     fn generate(ctx: &mut Ctx<Self>) {
         let strat = (ds::arb_ty(4), prop::collection::vec(any::<u16>(), 8..32), any::<u16>(), any::<u16>(), 0u32..(1 << 12), 0u8..4)
             .prop_flat_map(|(ty, script, at, kind, lb, mode)| {
